@@ -76,6 +76,8 @@ structure File where
 def File.size (f : File) : Nat := f.content.length
 /-- the bytes the compiler reads -/
 def File.effective (f : File) : Bytes := f.overlay.getD f.content
+/-- target `ExtraFiles` are digested by `digestFiles(paths)` (no overlay map) and compiled from disk -/
+def File.noOverlay (f : File) : File := { f with overlay := none }
 
 /-- a Go source file with an optional `//go:build tag` (`true`) / `//go:build !tag` (`false`) constraint -/
 structure SrcFile where
@@ -270,7 +272,7 @@ def commonSection (g : Global) : CommonSection φ :=
     buildTags := if g.tags = "" then [] else isort strLe (g.tags.splitOn ",")
     target := g.target, targetABI := g.targetABI, cc := g.cc
     ccflags := exportCCFlags g, cflags := g.cflags, ldflags := g.ldflags, linker := g.linker
-    extraFiles := digestFiles hb g.extraFiles }
+    extraFiles := digestFiles hb (g.extraFiles.map File.noOverlay) }
 
 /-- collect.go `collectPackageInputs`; `rewrite_vars` is an `orderedStringMap` (keys sorted when marshalled) -/
 def packageSection (g : Global) (d : PkgData) : PackageSection φ :=
@@ -360,7 +362,7 @@ def globRel (g : Global) : GlobRel :=
   { goos := g.goos, goarch := g.goarch, target := g.target, targetABI := g.targetABI, llvmTriple := g.llvmTriple
     abiMode := g.abiMode, opt := g.opt, goVersion := g.goVersion, llgoVersion := g.llgoVersion
     compilerHash := g.compilerHash, llvmVersion := g.llvmVersion, cc := g.cc, ccflagsRest := g.ccflagsRest
-    cflags := g.cflags, ldflags := g.ldflags, linker := g.linker, extraFiles := relFiles g.extraFiles
+    cflags := g.cflags, ldflags := g.ldflags, linker := g.linker, extraFiles := relFiles (g.extraFiles.map File.noOverlay)
     envVars := listedEnvVars.map (getenv g), compilerEnv := compilerEnvVars.map (getenv g) }
 
 def ownRel (g : Global) (d : PkgData) : OwnRel :=
